@@ -333,17 +333,9 @@ pub fn observe_de<I: TIterator, F: Fn() -> I>(p: u8, mk: F, cap: usize, want: Op
     mixed
 }
 
-/// `#[kani::proof]` wrapper: `$call` returns the vacuity witness of the instance.
-macro_rules! h {
-    ($(#[$m:meta])* $name:ident, $unwind:literal, $call:expr) => {
-        $(#[$m])*
-        #[kani::proof]
-        #[kani::unwind($unwind)]
-        pub fn $name() {
-            let w: bool = $call;
-            kani::cover!(w, "interesting region of the parameter space reached and passed");
-        }
-    };
+/// vacuity witness of a harness instance (returned by the generic bodies)
+pub fn witness(w: bool) {
+    kani::cover!(w, "interesting region of the parameter space reached and passed");
 }
 
 // ---------------------------------------------------------------------------------------------
@@ -432,42 +424,145 @@ pub fn titer_mapped<const N: usize>(p: u8) -> bool {
 
 // empty containers: iteration only (a trusted collection of nothing into a capacity-0 Vec is
 // pointer arithmetic on dangling addresses, which costs CBMC minutes and decides nothing)
-h!(c09_titer_empty, 6, {
-    titer_vec::<0>(WALK);
-    titer_arc::<0>(WALK);
-    titer_opt::<0>(WALK);
-    titer_deque::<0>(WALK);
-    true
-});
-h!(#[cfg(feature = "thorough")] c09_titer_empty_nd, 6, {
-    titer_into::<0>(WALK);
-    titer_nd::<0>(WALK);
-    true
-});
-h!(c09_titer_vec_n1, 6, {
-    titer_vec::<1>(CW | TOTAL);
-    titer_into::<1>(CW);
-    true
-});
-h!(c09_titer_vec_n3, 8, titer_vec::<3>(CW | TOTAL));
-h!(c09_titer_into_arc_n3, 8, {
-    titer_arc::<3>(CW);
-    titer_into::<3>(CW)
-});
-h!(c09_titer_deque_n3, 8, titer_deque::<3>(CW));
-h!(c09_titer_nd_n3, 8, titer_nd::<3>(CW));
-h!(c09_titer_ndrev_n3, 11, titer_nd_rev::<3>(CW));
-h!(#[cfg(feature = "thorough")] c09_titer_ndstep_n3, 11, titer_nd_step::<3>(CW));
-h!(c09_titer_opt_n3, 8, titer_opt::<3>(CW));
-h!(c09_titer_mapped_n2, 7, titer_mapped::<2>(CW));
+#[kani::proof]
+#[kani::unwind(6)]
+pub fn c09_titer_empty() {
+    let w: bool = {
+        titer_vec::<0>(WALK);
+        titer_arc::<0>(WALK);
+        titer_opt::<0>(WALK);
+        titer_deque::<0>(WALK);
+        true
+    };
+    witness(w);
+}
 
-h!(#[cfg(feature = "thorough")] c09_titer_vec_n4, 9, titer_vec::<4>(CW | TOTAL));
-h!(#[cfg(feature = "thorough")] c09_titer_deque_n4, 9, titer_deque::<4>(CW | TOTAL));
-h!(#[cfg(feature = "thorough")] c09_titer_nd_n4, 9, titer_nd::<4>(CW | TOTAL));
-h!(#[cfg(feature = "thorough")] c09_titer_ndrev_n4, 11, titer_nd_rev::<4>(CW | TOTAL));
-h!(#[cfg(feature = "thorough")] c09_titer_ndstep_n4, 11, titer_nd_step::<4>(CW | TOTAL));
-h!(#[cfg(feature = "thorough")] c09_titer_opt_n4, 9, titer_opt::<4>(CW | TOTAL));
-h!(#[cfg(feature = "thorough")] c09_titer_mapped_n4, 9, titer_mapped::<4>(CW | TOTAL));
+#[cfg(feature = "thorough")]
+#[kani::proof]
+#[kani::unwind(6)]
+pub fn c09_titer_empty_nd() {
+    let w: bool = {
+        titer_into::<0>(WALK);
+        titer_nd::<0>(WALK);
+        true
+    };
+    witness(w);
+}
+
+#[kani::proof]
+#[kani::unwind(6)]
+pub fn c09_titer_vec_n1() {
+    let w: bool = {
+        titer_vec::<1>(CW | TOTAL);
+        titer_into::<1>(CW);
+        true
+    };
+    witness(w);
+}
+
+#[kani::proof]
+#[kani::unwind(8)]
+pub fn c09_titer_vec_n3() {
+    witness(titer_vec::<3>(CW | TOTAL));
+}
+
+#[kani::proof]
+#[kani::unwind(8)]
+pub fn c09_titer_into_arc_n3() {
+    let w: bool = {
+        titer_arc::<3>(CW);
+        titer_into::<3>(CW)
+    };
+    witness(w);
+}
+
+#[kani::proof]
+#[kani::unwind(8)]
+pub fn c09_titer_deque_n3() {
+    witness(titer_deque::<3>(CW));
+}
+
+#[kani::proof]
+#[kani::unwind(8)]
+pub fn c09_titer_nd_n3() {
+    witness(titer_nd::<3>(CW));
+}
+
+#[kani::proof]
+#[kani::unwind(11)]
+pub fn c09_titer_ndrev_n3() {
+    witness(titer_nd_rev::<3>(CW));
+}
+
+#[cfg(feature = "thorough")]
+#[kani::proof]
+#[kani::unwind(11)]
+pub fn c09_titer_ndstep_n3() {
+    witness(titer_nd_step::<3>(CW));
+}
+
+#[kani::proof]
+#[kani::unwind(8)]
+pub fn c09_titer_opt_n3() {
+    witness(titer_opt::<3>(CW));
+}
+
+#[kani::proof]
+#[kani::unwind(7)]
+pub fn c09_titer_mapped_n2() {
+    witness(titer_mapped::<2>(CW));
+}
+
+
+#[cfg(feature = "thorough")]
+#[kani::proof]
+#[kani::unwind(9)]
+pub fn c09_titer_vec_n4() {
+    witness(titer_vec::<4>(CW | TOTAL));
+}
+
+#[cfg(feature = "thorough")]
+#[kani::proof]
+#[kani::unwind(9)]
+pub fn c09_titer_deque_n4() {
+    witness(titer_deque::<4>(CW | TOTAL));
+}
+
+#[cfg(feature = "thorough")]
+#[kani::proof]
+#[kani::unwind(9)]
+pub fn c09_titer_nd_n4() {
+    witness(titer_nd::<4>(CW | TOTAL));
+}
+
+#[cfg(feature = "thorough")]
+#[kani::proof]
+#[kani::unwind(11)]
+pub fn c09_titer_ndrev_n4() {
+    witness(titer_nd_rev::<4>(CW | TOTAL));
+}
+
+#[cfg(feature = "thorough")]
+#[kani::proof]
+#[kani::unwind(11)]
+pub fn c09_titer_ndstep_n4() {
+    witness(titer_nd_step::<4>(CW | TOTAL));
+}
+
+#[cfg(feature = "thorough")]
+#[kani::proof]
+#[kani::unwind(9)]
+pub fn c09_titer_opt_n4() {
+    witness(titer_opt::<4>(CW | TOTAL));
+}
+
+#[cfg(feature = "thorough")]
+#[kani::proof]
+#[kani::unwind(9)]
+pub fn c09_titer_mapped_n4() {
+    witness(titer_mapped::<4>(CW | TOTAL));
+}
+
 
 // ---------------------------------------------------------------------------------------------
 // 2. TrustIter itself (root of every `to_trust(len)` adaptor)
@@ -487,8 +582,18 @@ pub fn trustiter_steps() -> bool {
     walk_both((0..len).to_trust(len), 4).1
 }
 
-h!(c09_trustiter_total, 7, trustiter_total());
-h!(c09_trustiter_steps, 7, trustiter_steps());
+#[kani::proof]
+#[kani::unwind(7)]
+pub fn c09_trustiter_total() {
+    witness(trustiter_total());
+}
+
+#[kani::proof]
+#[kani::unwind(7)]
+pub fn c09_trustiter_steps() {
+    witness(trustiter_steps());
+}
+
 
 // ---------------------------------------------------------------------------------------------
 // 3. MapBasic::shift (unguarded), lag in -len-3..=len+3
@@ -522,18 +627,74 @@ pub fn shift_abs(p: u8, within: bool) -> bool {
 // D1 — expected to fail on the pinned tree: for n < -len the iterator yields |n| items while
 // announcing len (count mismatch; out-of-bounds `ptr::write` in the trusted collector), for
 // n > len `len - n_abs` underflows.
-h!(c09_shift_beyond_total_n0, 7, shift_vec::<0>(TOTAL, false));
-h!(c09_shift_beyond_total_n2, 9, shift_vec::<2>(TOTAL, false));
-h!(c09_shift_beyond_collect_n1, 8, shift_vec::<1>(COLLECT, false));
-// the in-range lags on their own: hold
-h!(c09_shift_within_vec_n2, 7, shift_vec::<2>(TOTAL, true));
+#[kani::proof]
+#[kani::unwind(7)]
+pub fn c09_shift_beyond_total_n0() {
+    witness(shift_vec::<0>(TOTAL, false));
+}
 
-h!(#[cfg(feature = "thorough")] c09_shift_within_collect_n2, 7, shift_vec::<2>(COLLECT, true));
-h!(#[cfg(feature = "thorough")] c09_shift_within_vec_n3, 8, shift_vec::<3>(COLLECT | TOTAL, true));
-h!(#[cfg(feature = "thorough")] c09_shift_beyond_vec_n3, 10, shift_vec::<3>(COLLECT | TOTAL, false));
-h!(#[cfg(feature = "thorough")] c09_shift_beyond_vec_n4, 11, shift_vec::<4>(TOTAL, false));
-h!(#[cfg(feature = "thorough")] c09_shift_beyond_abs, 10, shift_abs(COLLECT | TOTAL, false));
-h!(#[cfg(feature = "thorough")] c09_shift_within_abs, 8, shift_abs(COLLECT | TOTAL, true));
+#[kani::proof]
+#[kani::unwind(9)]
+pub fn c09_shift_beyond_total_n2() {
+    witness(shift_vec::<2>(TOTAL, false));
+}
+
+#[kani::proof]
+#[kani::unwind(8)]
+pub fn c09_shift_beyond_collect_n1() {
+    witness(shift_vec::<1>(COLLECT, false));
+}
+
+// the in-range lags on their own: hold
+#[kani::proof]
+#[kani::unwind(7)]
+pub fn c09_shift_within_vec_n2() {
+    witness(shift_vec::<2>(TOTAL, true));
+}
+
+
+#[cfg(feature = "thorough")]
+#[kani::proof]
+#[kani::unwind(7)]
+pub fn c09_shift_within_collect_n2() {
+    witness(shift_vec::<2>(COLLECT, true));
+}
+
+#[cfg(feature = "thorough")]
+#[kani::proof]
+#[kani::unwind(8)]
+pub fn c09_shift_within_vec_n3() {
+    witness(shift_vec::<3>(COLLECT | TOTAL, true));
+}
+
+#[cfg(feature = "thorough")]
+#[kani::proof]
+#[kani::unwind(10)]
+pub fn c09_shift_beyond_vec_n3() {
+    witness(shift_vec::<3>(COLLECT | TOTAL, false));
+}
+
+#[cfg(feature = "thorough")]
+#[kani::proof]
+#[kani::unwind(11)]
+pub fn c09_shift_beyond_vec_n4() {
+    witness(shift_vec::<4>(TOTAL, false));
+}
+
+#[cfg(feature = "thorough")]
+#[kani::proof]
+#[kani::unwind(10)]
+pub fn c09_shift_beyond_abs() {
+    witness(shift_abs(COLLECT | TOTAL, false));
+}
+
+#[cfg(feature = "thorough")]
+#[kani::proof]
+#[kani::unwind(8)]
+pub fn c09_shift_within_abs() {
+    witness(shift_abs(COLLECT | TOTAL, true));
+}
+
 
 // ---------------------------------------------------------------------------------------------
 // 4. vshift (guarded), lag over the full i32 range
@@ -565,19 +726,70 @@ pub fn vshift_abs(p: u8) -> bool {
     w
 }
 
-h!(c09_vshift_total_vec_n01, 6, {
-    vshift_vec::<0>(TOTAL);
-    vshift_vec::<1>(TOTAL)
-});
-h!(c09_vshift_total_vec_n3, 8, vshift_vec::<3>(TOTAL));
-h!(c09_vshift_collect_vec_n2, 7, vshift_vec::<2>(COLLECT));
-h!(c09_vshift_total_abs, 8, vshift_abs(TOTAL));
+#[kani::proof]
+#[kani::unwind(6)]
+pub fn c09_vshift_total_vec_n01() {
+    let w: bool = {
+        vshift_vec::<0>(TOTAL);
+        vshift_vec::<1>(TOTAL)
+    };
+    witness(w);
+}
 
-h!(#[cfg(feature = "thorough")] c09_vshift_total_vec_n2, 7, vshift_vec::<2>(TOTAL));
-h!(#[cfg(feature = "thorough")] c09_vshift_total_vec_n4, 9, vshift_vec::<4>(TOTAL));
-h!(#[cfg(feature = "thorough")] c09_vshift_collect_vec_n3, 8, vshift_vec::<3>(COLLECT));
-h!(#[cfg(feature = "thorough")] c09_vshift_collect_vec_n4, 9, vshift_vec::<4>(COLLECT));
-h!(#[cfg(feature = "thorough")] c09_vshift_collect_abs, 8, vshift_abs(COLLECT));
+#[kani::proof]
+#[kani::unwind(8)]
+pub fn c09_vshift_total_vec_n3() {
+    witness(vshift_vec::<3>(TOTAL));
+}
+
+#[kani::proof]
+#[kani::unwind(7)]
+pub fn c09_vshift_collect_vec_n2() {
+    witness(vshift_vec::<2>(COLLECT));
+}
+
+#[kani::proof]
+#[kani::unwind(8)]
+pub fn c09_vshift_total_abs() {
+    witness(vshift_abs(TOTAL));
+}
+
+
+#[cfg(feature = "thorough")]
+#[kani::proof]
+#[kani::unwind(7)]
+pub fn c09_vshift_total_vec_n2() {
+    witness(vshift_vec::<2>(TOTAL));
+}
+
+#[cfg(feature = "thorough")]
+#[kani::proof]
+#[kani::unwind(9)]
+pub fn c09_vshift_total_vec_n4() {
+    witness(vshift_vec::<4>(TOTAL));
+}
+
+#[cfg(feature = "thorough")]
+#[kani::proof]
+#[kani::unwind(8)]
+pub fn c09_vshift_collect_vec_n3() {
+    witness(vshift_vec::<3>(COLLECT));
+}
+
+#[cfg(feature = "thorough")]
+#[kani::proof]
+#[kani::unwind(9)]
+pub fn c09_vshift_collect_vec_n4() {
+    witness(vshift_vec::<4>(COLLECT));
+}
+
+#[cfg(feature = "thorough")]
+#[kani::proof]
+#[kani::unwind(8)]
+pub fn c09_vshift_collect_abs() {
+    witness(vshift_abs(COLLECT));
+}
+
 
 // ---------------------------------------------------------------------------------------------
 // 5. vdiff / vpct_change (views), lag over the full i32 range
@@ -609,25 +821,93 @@ pub fn vpct_vec<const N: usize>(p: u8) -> bool {
     w
 }
 
-h!(c09_vdiff_total_vec_n01, 6, {
-    vdiff_vec::<0>(TOTAL);
-    vdiff_vec::<1>(TOTAL)
-});
-h!(c09_vdiff_total_vec_n3, 8, vdiff_vec::<3>(TOTAL));
-h!(c09_vdiff_collect_vec_n2, 7, vdiff_vec::<2>(COLLECT));
-h!(c09_vpct_total_vec_n01, 6, {
-    vpct_vec::<0>(TOTAL);
-    vpct_vec::<1>(TOTAL)
-});
-h!(c09_vpct_total_vec_n3, 8, vpct_vec::<3>(TOTAL));
-h!(c09_vpct_collect_vec_n2, 7, vpct_vec::<2>(COLLECT));
+#[kani::proof]
+#[kani::unwind(6)]
+pub fn c09_vdiff_total_vec_n01() {
+    let w: bool = {
+        vdiff_vec::<0>(TOTAL);
+        vdiff_vec::<1>(TOTAL)
+    };
+    witness(w);
+}
 
-h!(#[cfg(feature = "thorough")] c09_vdiff_total_vec_n2, 7, vdiff_vec::<2>(TOTAL));
-h!(#[cfg(feature = "thorough")] c09_vdiff_total_vec_n4, 9, vdiff_vec::<4>(TOTAL));
-h!(#[cfg(feature = "thorough")] c09_vdiff_collect_vec_n3, 8, vdiff_vec::<3>(COLLECT));
-h!(#[cfg(feature = "thorough")] c09_vpct_total_vec_n2, 7, vpct_vec::<2>(TOTAL));
-h!(#[cfg(feature = "thorough")] c09_vpct_total_vec_n4, 9, vpct_vec::<4>(TOTAL));
-h!(#[cfg(feature = "thorough")] c09_vpct_collect_vec_n3, 8, vpct_vec::<3>(COLLECT));
+#[kani::proof]
+#[kani::unwind(8)]
+pub fn c09_vdiff_total_vec_n3() {
+    witness(vdiff_vec::<3>(TOTAL));
+}
+
+#[kani::proof]
+#[kani::unwind(7)]
+pub fn c09_vdiff_collect_vec_n2() {
+    witness(vdiff_vec::<2>(COLLECT));
+}
+
+#[kani::proof]
+#[kani::unwind(6)]
+pub fn c09_vpct_total_vec_n01() {
+    let w: bool = {
+        vpct_vec::<0>(TOTAL);
+        vpct_vec::<1>(TOTAL)
+    };
+    witness(w);
+}
+
+#[kani::proof]
+#[kani::unwind(8)]
+pub fn c09_vpct_total_vec_n3() {
+    witness(vpct_vec::<3>(TOTAL));
+}
+
+#[kani::proof]
+#[kani::unwind(7)]
+pub fn c09_vpct_collect_vec_n2() {
+    witness(vpct_vec::<2>(COLLECT));
+}
+
+
+#[cfg(feature = "thorough")]
+#[kani::proof]
+#[kani::unwind(7)]
+pub fn c09_vdiff_total_vec_n2() {
+    witness(vdiff_vec::<2>(TOTAL));
+}
+
+#[cfg(feature = "thorough")]
+#[kani::proof]
+#[kani::unwind(9)]
+pub fn c09_vdiff_total_vec_n4() {
+    witness(vdiff_vec::<4>(TOTAL));
+}
+
+#[cfg(feature = "thorough")]
+#[kani::proof]
+#[kani::unwind(8)]
+pub fn c09_vdiff_collect_vec_n3() {
+    witness(vdiff_vec::<3>(COLLECT));
+}
+
+#[cfg(feature = "thorough")]
+#[kani::proof]
+#[kani::unwind(7)]
+pub fn c09_vpct_total_vec_n2() {
+    witness(vpct_vec::<2>(TOTAL));
+}
+
+#[cfg(feature = "thorough")]
+#[kani::proof]
+#[kani::unwind(9)]
+pub fn c09_vpct_total_vec_n4() {
+    witness(vpct_vec::<4>(TOTAL));
+}
+
+#[cfg(feature = "thorough")]
+#[kani::proof]
+#[kani::unwind(8)]
+pub fn c09_vpct_collect_vec_n3() {
+    witness(vpct_vec::<3>(COLLECT));
+}
+
 
 // ---------------------------------------------------------------------------------------------
 // 6. map-based adaptors: abs/vabs, ffill(_mask), bfill(_mask), fill(_mask), vclip
@@ -761,68 +1041,187 @@ pub fn winsor_tail<const N: usize>() -> bool {
     true
 }
 
-h!(c09_maps_empty, 6, {
-    abs_vec::<0>(WALK);
-    ffill_vec::<0>(WALK);
-    bfill_vec::<0>(WALK);
-    fill_vec::<0>(WALK);
-    vclip_vec::<0>(WALK)
-});
-h!(c09_abs_vec_n3, 8, abs_vec::<3>(CW));
-h!(c09_abs_abs, 8, abs_abs());
-h!(c09_ffill_vec_n3, 8, ffill_vec::<3>(CW));
-h!(c09_ffill_abs, 8, ffill_abs());
-h!(c09_bfill_vec_n3, 8, bfill_vec::<3>(CW));
-h!(c09_bfill_abs, 8, bfill_abs());
-h!(c09_fill_vec_n3, 8, fill_vec::<3>(CW));
-h!(c09_fill_abs, 8, fill_abs());
-h!(c09_vclip_vec_n3, 8, vclip_vec::<3>(CW));
-h!(c09_vclip_abs, 8, vclip_abs());
-h!(c09_winsor_tail_n2, 7, winsor_tail::<2>());
+#[kani::proof]
+#[kani::unwind(6)]
+pub fn c09_maps_empty() {
+    let w: bool = {
+        abs_vec::<0>(WALK);
+        ffill_vec::<0>(WALK);
+        bfill_vec::<0>(WALK);
+        fill_vec::<0>(WALK);
+        vclip_vec::<0>(WALK)
+    };
+    witness(w);
+}
 
-h!(#[cfg(feature = "thorough")] c09_abs_vec_n4, 9, abs_vec::<4>(CW));
-h!(#[cfg(feature = "thorough")] c09_ffill_vec_n4, 9, ffill_vec::<4>(CW));
-h!(#[cfg(feature = "thorough")] c09_bfill_vec_n4, 9, bfill_vec::<4>(CW));
-h!(#[cfg(feature = "thorough")] c09_fill_vec_n4, 9, fill_vec::<4>(CW));
-h!(#[cfg(feature = "thorough")] c09_vclip_vec_n4, 9, vclip_vec::<4>(CW));
+#[kani::proof]
+#[kani::unwind(8)]
+pub fn c09_abs_vec_n3() {
+    witness(abs_vec::<3>(CW));
+}
+
+#[kani::proof]
+#[kani::unwind(8)]
+pub fn c09_abs_abs() {
+    witness(abs_abs());
+}
+
+#[kani::proof]
+#[kani::unwind(8)]
+pub fn c09_ffill_vec_n3() {
+    witness(ffill_vec::<3>(CW));
+}
+
+#[kani::proof]
+#[kani::unwind(8)]
+pub fn c09_ffill_abs() {
+    witness(ffill_abs());
+}
+
+#[kani::proof]
+#[kani::unwind(8)]
+pub fn c09_bfill_vec_n3() {
+    witness(bfill_vec::<3>(CW));
+}
+
+#[kani::proof]
+#[kani::unwind(8)]
+pub fn c09_bfill_abs() {
+    witness(bfill_abs());
+}
+
+#[kani::proof]
+#[kani::unwind(8)]
+pub fn c09_fill_vec_n3() {
+    witness(fill_vec::<3>(CW));
+}
+
+#[kani::proof]
+#[kani::unwind(8)]
+pub fn c09_fill_abs() {
+    witness(fill_abs());
+}
+
+#[kani::proof]
+#[kani::unwind(8)]
+pub fn c09_vclip_vec_n3() {
+    witness(vclip_vec::<3>(CW));
+}
+
+#[kani::proof]
+#[kani::unwind(8)]
+pub fn c09_vclip_abs() {
+    witness(vclip_abs());
+}
+
+#[kani::proof]
+#[kani::unwind(7)]
+pub fn c09_winsor_tail_n2() {
+    witness(winsor_tail::<2>());
+}
+
+
+#[cfg(feature = "thorough")]
+#[kani::proof]
+#[kani::unwind(9)]
+pub fn c09_abs_vec_n4() {
+    witness(abs_vec::<4>(CW));
+}
+
+#[cfg(feature = "thorough")]
+#[kani::proof]
+#[kani::unwind(9)]
+pub fn c09_ffill_vec_n4() {
+    witness(ffill_vec::<4>(CW));
+}
+
+#[cfg(feature = "thorough")]
+#[kani::proof]
+#[kani::unwind(9)]
+pub fn c09_bfill_vec_n4() {
+    witness(bfill_vec::<4>(CW));
+}
+
+#[cfg(feature = "thorough")]
+#[kani::proof]
+#[kani::unwind(9)]
+pub fn c09_fill_vec_n4() {
+    witness(fill_vec::<4>(CW));
+}
+
+#[cfg(feature = "thorough")]
+#[kani::proof]
+#[kani::unwind(9)]
+pub fn c09_vclip_vec_n4() {
+    witness(vclip_vec::<4>(CW));
+}
+
 
 // ---------------------------------------------------------------------------------------------
 // 7. vcut: 1-2 values, 2 edges. `right` / `add_bounds` literal per harness (symbolic flags: no
 //    answer in 900 s); the label count matches (a mismatch is an `Err`, no iterator exists)
 // ---------------------------------------------------------------------------------------------
 
-macro_rules! vcut_h {
-    ($(#[$m:meta])* $name:ident, $unwind:literal, $N:literal, $L:literal, $right:literal, $ab:literal, $p:expr) => {
-        $(#[$m])*
-        #[kani::proof]
-        #[kani::stub(std::fmt::format, crate::util::fmt_stub)]
-        #[kani::unwind($unwind)]
-        pub fn $name() {
-            let x: Vec<i32> = kani::any::<[i32; $N]>().to_vec();
-            let bins: [i32; 2] = kani::any();
-            let labels: [i32; $L] = kani::any();
-            kani::cover!(bins[0] < bins[1], "ordered edges");
-            observe(
-                $p,
-                || match x.titer().vcut(&bins, &labels, $right, $ab) {
-                    Ok(it) => it,
-                    Err(_) => {
-                        assert!(false, "vcut accepts a matching number of labels");
-                        unreachable!()
-                    },
+macro_rules! vcut_body {
+    ($N:literal, $L:literal, $right:literal, $ab:literal, $p:expr) => {{
+        let x: Vec<i32> = kani::any::<[i32; $N]>().to_vec();
+        let bins: [i32; 2] = kani::any();
+        let labels: [i32; $L] = kani::any();
+        kani::cover!(bins[0] < bins[1], "ordered edges");
+        observe(
+            $p,
+            || match x.titer().vcut(&bins, &labels, $right, $ab) {
+                Ok(it) => it,
+                Err(_) => {
+                    assert!(false, "vcut accepts a matching number of labels");
+                    unreachable!()
                 },
-                $N + 1,
-                Some($N),
-            );
-        }
-    };
+            },
+            $N + 1,
+            Some($N),
+        );
+    }};
 }
 
-vcut_h!(#[cfg(feature = "thorough")] c09_vcut_n1_right_inner, 7, 1, 1, true, false, WALK);
-vcut_h!(c09_vcut_n1_left_bounds, 7, 1, 3, false, true, WALK);
-vcut_h!(#[cfg(feature = "thorough")] c09_vcut_n1_collect, 7, 1, 1, false, false, COLLECT);
-vcut_h!(#[cfg(feature = "thorough")] c09_vcut_n2_right_bounds, 8, 2, 3, true, true, WALK);
-vcut_h!(#[cfg(feature = "thorough")] c09_vcut_n0_left_inner, 7, 0, 1, false, false, WALK);
+#[cfg(feature = "thorough")]
+#[kani::proof]
+#[kani::stub(std::fmt::format, crate::util::fmt_stub)]
+#[kani::unwind(7)]
+pub fn c09_vcut_n1_right_inner() {
+    vcut_body!(1, 1, true, false, WALK);
+}
+
+#[kani::proof]
+#[kani::stub(std::fmt::format, crate::util::fmt_stub)]
+#[kani::unwind(7)]
+pub fn c09_vcut_n1_left_bounds() {
+    vcut_body!(1, 3, false, true, WALK);
+}
+
+#[cfg(feature = "thorough")]
+#[kani::proof]
+#[kani::stub(std::fmt::format, crate::util::fmt_stub)]
+#[kani::unwind(7)]
+pub fn c09_vcut_n1_collect() {
+    vcut_body!(1, 1, false, false, COLLECT);
+}
+
+#[cfg(feature = "thorough")]
+#[kani::proof]
+#[kani::stub(std::fmt::format, crate::util::fmt_stub)]
+#[kani::unwind(8)]
+pub fn c09_vcut_n2_right_bounds() {
+    vcut_body!(2, 3, true, true, WALK);
+}
+
+#[cfg(feature = "thorough")]
+#[kani::proof]
+#[kani::stub(std::fmt::format, crate::util::fmt_stub)]
+#[kani::unwind(7)]
+pub fn c09_vcut_n0_left_inner() {
+    vcut_body!(0, 1, false, false, WALK);
+}
+
 
 // ---------------------------------------------------------------------------------------------
 // 8. vpartition / varg_partition: kth in 0..=N+2, sort, rev.
@@ -864,20 +1263,15 @@ macro_rules! part_grid3 {
     };
 }
 
-macro_rules! part_h {
-    ($(#[$m:meta])* $name:ident, $unwind:literal, $grid:ident, $f:ident, $p:expr, [$($pat:expr),*]) => {
-        $(#[$m])*
-        #[kani::proof]
-        #[kani::unwind($unwind)]
-        pub fn $name() {
-            let a: i32 = kani::any();
-            let b: i32 = kani::any();
-            let c: i32 = kani::any();
-            let _ = (a, b, c);
-            kani::cover!(a == b, "tie");
-            $( { let x = $pat(a, b, c); $grid!($f, $p, x); } )*
-        }
-    };
+macro_rules! part_body {
+    ($grid:ident, $f:ident, $p:expr, [$($pat:expr),*]) => {{
+        let a: i32 = kani::any();
+        let b: i32 = kani::any();
+        let c: i32 = kani::any();
+        let _ = (a, b, c);
+        kani::cover!(a == b, "tie");
+        $( { let x = $pat(a, b, c); $grid!($f, $p, x); } )*
+    }};
 }
 
 fn p2_ss(a: i32, b: i32, _c: i32) -> Vec<Option<i32>> {
@@ -917,25 +1311,127 @@ macro_rules! part_grid01 {
     };
 }
 
-part_h!(c09_vpartition_total_n01, 8, part_grid01, vpartition, TOTAL, [p0, p1_s]);
-part_h!(c09_vpartition_total_n2_valid, 8, part_grid2, vpartition, TOTAL, [p2_ss]);
-part_h!(c09_vpartition_total_n2_nulls, 8, part_grid2, vpartition, TOTAL, [p2_ns]);
-part_h!(c09_vargpartition_total_n01, 8, part_grid01, varg_partition, TOTAL, [p0, p1_s]);
-part_h!(c09_vargpartition_total_n2_valid, 8, part_grid2, varg_partition, TOTAL, [p2_ss]);
-part_h!(c09_vargpartition_total_n2_nulls, 8, part_grid2, varg_partition, TOTAL, [p2_ns]);
-part_h!(#[cfg(feature = "thorough")] c09_vpartition_total_n2_allnull, 8, part_grid2, vpartition, TOTAL, [p2_nn, p1_n]);
-part_h!(#[cfg(feature = "thorough")] c09_vargpartition_total_n2_allnull, 8, part_grid2, varg_partition, TOTAL, [p2_nn, p1_n]);
-part_h!(#[cfg(feature = "thorough")] c09_partition_collect_n2, 8, part_grid2, vpartition, COLLECT, [p2_ns]);
-part_h!(#[cfg(feature = "thorough")] c09_argpartition_collect_n2, 8, part_grid2, varg_partition, COLLECT, [p2_ns]);
+#[kani::proof]
+#[kani::unwind(8)]
+pub fn c09_vpartition_total_n01() {
+    part_body!(part_grid01, vpartition, TOTAL, [p0, p1_s]);
+}
 
-part_h!(#[cfg(feature = "thorough")] c09_vpartition_total_n2_rest, 8, part_grid2b, vpartition, TOTAL, [p2_ss, p2_ns, p2_nn]);
-part_h!(#[cfg(feature = "thorough")] c09_vargpartition_total_n2_rest, 8, part_grid2b, varg_partition, TOTAL, [p2_ss, p2_ns, p2_nn]);
-part_h!(#[cfg(feature = "thorough")] c09_vpartition_total_n3_valid, 9, part_grid3, vpartition, TOTAL, [p3_sss]);
-part_h!(#[cfg(feature = "thorough")] c09_vpartition_total_n3_nulls, 9, part_grid3, vpartition, TOTAL, [p3_sns, p3_nsn, p3_nnn]);
-part_h!(#[cfg(feature = "thorough")] c09_vargpartition_total_n3_valid, 9, part_grid3, varg_partition, TOTAL, [p3_sss]);
-part_h!(#[cfg(feature = "thorough")] c09_vargpartition_total_n3_nulls, 9, part_grid3, varg_partition, TOTAL, [p3_sns, p3_nsn, p3_nnn]);
-part_h!(#[cfg(feature = "thorough")] c09_partition_collect_n3, 9, part_grid3, vpartition, COLLECT, [p3_sns]);
-part_h!(#[cfg(feature = "thorough")] c09_argpartition_collect_n3, 9, part_grid3, varg_partition, COLLECT, [p3_sns]);
+#[kani::proof]
+#[kani::unwind(8)]
+pub fn c09_vpartition_total_n2_valid() {
+    part_body!(part_grid2, vpartition, TOTAL, [p2_ss]);
+}
+
+#[kani::proof]
+#[kani::unwind(8)]
+pub fn c09_vpartition_total_n2_nulls() {
+    part_body!(part_grid2, vpartition, TOTAL, [p2_ns]);
+}
+
+#[kani::proof]
+#[kani::unwind(8)]
+pub fn c09_vargpartition_total_n01() {
+    part_body!(part_grid01, varg_partition, TOTAL, [p0, p1_s]);
+}
+
+#[kani::proof]
+#[kani::unwind(8)]
+pub fn c09_vargpartition_total_n2_valid() {
+    part_body!(part_grid2, varg_partition, TOTAL, [p2_ss]);
+}
+
+#[kani::proof]
+#[kani::unwind(8)]
+pub fn c09_vargpartition_total_n2_nulls() {
+    part_body!(part_grid2, varg_partition, TOTAL, [p2_ns]);
+}
+
+#[cfg(feature = "thorough")]
+#[kani::proof]
+#[kani::unwind(8)]
+pub fn c09_vpartition_total_n2_allnull() {
+    part_body!(part_grid2, vpartition, TOTAL, [p2_nn, p1_n]);
+}
+
+#[cfg(feature = "thorough")]
+#[kani::proof]
+#[kani::unwind(8)]
+pub fn c09_vargpartition_total_n2_allnull() {
+    part_body!(part_grid2, varg_partition, TOTAL, [p2_nn, p1_n]);
+}
+
+#[cfg(feature = "thorough")]
+#[kani::proof]
+#[kani::unwind(8)]
+pub fn c09_partition_collect_n2() {
+    part_body!(part_grid2, vpartition, COLLECT, [p2_ns]);
+}
+
+#[cfg(feature = "thorough")]
+#[kani::proof]
+#[kani::unwind(8)]
+pub fn c09_argpartition_collect_n2() {
+    part_body!(part_grid2, varg_partition, COLLECT, [p2_ns]);
+}
+
+
+#[cfg(feature = "thorough")]
+#[kani::proof]
+#[kani::unwind(8)]
+pub fn c09_vpartition_total_n2_rest() {
+    part_body!(part_grid2b, vpartition, TOTAL, [p2_ss, p2_ns, p2_nn]);
+}
+
+#[cfg(feature = "thorough")]
+#[kani::proof]
+#[kani::unwind(8)]
+pub fn c09_vargpartition_total_n2_rest() {
+    part_body!(part_grid2b, varg_partition, TOTAL, [p2_ss, p2_ns, p2_nn]);
+}
+
+#[cfg(feature = "thorough")]
+#[kani::proof]
+#[kani::unwind(9)]
+pub fn c09_vpartition_total_n3_valid() {
+    part_body!(part_grid3, vpartition, TOTAL, [p3_sss]);
+}
+
+#[cfg(feature = "thorough")]
+#[kani::proof]
+#[kani::unwind(9)]
+pub fn c09_vpartition_total_n3_nulls() {
+    part_body!(part_grid3, vpartition, TOTAL, [p3_sns, p3_nsn, p3_nnn]);
+}
+
+#[cfg(feature = "thorough")]
+#[kani::proof]
+#[kani::unwind(9)]
+pub fn c09_vargpartition_total_n3_valid() {
+    part_body!(part_grid3, varg_partition, TOTAL, [p3_sss]);
+}
+
+#[cfg(feature = "thorough")]
+#[kani::proof]
+#[kani::unwind(9)]
+pub fn c09_vargpartition_total_n3_nulls() {
+    part_body!(part_grid3, varg_partition, TOTAL, [p3_sns, p3_nsn, p3_nnn]);
+}
+
+#[cfg(feature = "thorough")]
+#[kani::proof]
+#[kani::unwind(9)]
+pub fn c09_partition_collect_n3() {
+    part_body!(part_grid3, vpartition, COLLECT, [p3_sns]);
+}
+
+#[cfg(feature = "thorough")]
+#[kani::proof]
+#[kani::unwind(9)]
+pub fn c09_argpartition_collect_n3() {
+    part_body!(part_grid3, varg_partition, COLLECT, [p3_sns]);
+}
+
 
 // ---------------------------------------------------------------------------------------------
 // 9. rolling_custom_iter: window in 1..=N+2
@@ -972,13 +1468,37 @@ pub fn rolling_nd<const N: usize>(p: u8) -> bool {
     wit
 }
 
-h!(c09_rolling_total_vec_n03, 8, {
-    rolling_vec::<0>(TOTAL);
-    rolling_vec::<3>(COLLECT | TOTAL)
-});
-h!(#[cfg(feature = "thorough")] c09_rolling_total_vec_n4, 9, rolling_vec::<4>(COLLECT | TOTAL));
-h!(#[cfg(feature = "thorough")] c09_rolling_total_deque_n2, 7, rolling_deque::<2>(COLLECT | TOTAL));
-h!(#[cfg(feature = "thorough")] c09_rolling_total_nd_n2, 7, rolling_nd::<2>(COLLECT | TOTAL));
+#[kani::proof]
+#[kani::unwind(8)]
+pub fn c09_rolling_total_vec_n03() {
+    let w: bool = {
+        rolling_vec::<0>(TOTAL);
+        rolling_vec::<3>(COLLECT | TOTAL)
+    };
+    witness(w);
+}
+
+#[cfg(feature = "thorough")]
+#[kani::proof]
+#[kani::unwind(9)]
+pub fn c09_rolling_total_vec_n4() {
+    witness(rolling_vec::<4>(COLLECT | TOTAL));
+}
+
+#[cfg(feature = "thorough")]
+#[kani::proof]
+#[kani::unwind(7)]
+pub fn c09_rolling_total_deque_n2() {
+    witness(rolling_deque::<2>(COLLECT | TOTAL));
+}
+
+#[cfg(feature = "thorough")]
+#[kani::proof]
+#[kani::unwind(7)]
+pub fn c09_rolling_total_nd_n2() {
+    witness(rolling_nd::<2>(COLLECT | TOTAL));
+}
+
 
 // ---------------------------------------------------------------------------------------------
 // 10. D2 seen through the adaptors that wrap their pipeline in `TrustIter` (`to_trust(len)`):
@@ -1065,11 +1585,41 @@ pub fn steps_sym<const N: usize>(which: u8) -> bool {
     true
 }
 
-h!(#[cfg(feature = "thorough")] c09_steps_shift_n3, 8, steps_sym::<3>(0));
-h!(#[cfg(feature = "thorough")] c09_steps_vshift_n3, 8, steps_sym::<3>(1));
-h!(#[cfg(feature = "thorough")] c09_steps_vdiff_n3, 8, steps_sym::<3>(2));
-h!(#[cfg(feature = "thorough")] c09_steps_vpct_n3, 8, steps_sym::<3>(3));
-h!(#[cfg(feature = "thorough")] c09_steps_rolling_n3, 8, steps_sym::<3>(4));
+#[cfg(feature = "thorough")]
+#[kani::proof]
+#[kani::unwind(8)]
+pub fn c09_steps_shift_n3() {
+    witness(steps_sym::<3>(0));
+}
+
+#[cfg(feature = "thorough")]
+#[kani::proof]
+#[kani::unwind(8)]
+pub fn c09_steps_vshift_n3() {
+    witness(steps_sym::<3>(1));
+}
+
+#[cfg(feature = "thorough")]
+#[kani::proof]
+#[kani::unwind(8)]
+pub fn c09_steps_vdiff_n3() {
+    witness(steps_sym::<3>(2));
+}
+
+#[cfg(feature = "thorough")]
+#[kani::proof]
+#[kani::unwind(8)]
+pub fn c09_steps_vpct_n3() {
+    witness(steps_sym::<3>(3));
+}
+
+#[cfg(feature = "thorough")]
+#[kani::proof]
+#[kani::unwind(8)]
+pub fn c09_steps_rolling_n3() {
+    witness(steps_sym::<3>(4));
+}
+
 
 #[cfg(feature = "thorough")]
 #[kani::proof]
@@ -1228,10 +1778,30 @@ pub fn gen_linspace_f64() -> bool {
     num >= 2
 }
 
-h!(c09_range_i32, 10, gen_range_i32());
-h!(c09_range_f64, 10, gen_range_f64());
-h!(c09_linspace_i32, 10, gen_linspace_i32());
-h!(c09_linspace_f64, 10, gen_linspace_f64());
+#[kani::proof]
+#[kani::unwind(10)]
+pub fn c09_range_i32() {
+    witness(gen_range_i32());
+}
+
+#[kani::proof]
+#[kani::unwind(10)]
+pub fn c09_range_f64() {
+    witness(gen_range_f64());
+}
+
+#[kani::proof]
+#[kani::unwind(10)]
+pub fn c09_linspace_i32() {
+    witness(gen_linspace_i32());
+}
+
+#[kani::proof]
+#[kani::unwind(10)]
+pub fn c09_linspace_f64() {
+    witness(gen_linspace_f64());
+}
+
 
 // ---------------------------------------------------------------------------------------------
 // 12. concrete depth-2/3 pipelines (sanity witnesses for the induction argument) and winsorize
@@ -1280,10 +1850,40 @@ pub fn winsorize_vec<const N: usize>(method: tevec::map::WinsorizeMethod) -> boo
     true
 }
 
-h!(#[cfg(feature = "thorough")] c09_pipe_vshift_vshift_n2, 7, pipe_vshift2::<2>());
-h!(#[cfg(feature = "thorough")] c09_pipe_vshift_vshift_n3, 8, pipe_vshift2::<3>());
-h!(#[cfg(feature = "thorough")] c09_pipe_fill_vclip_n3, 8, pipe_fill_vclip::<3>());
-h!(#[cfg(feature = "thorough")] #[kani::stub(std::fmt::format, crate::util::fmt_stub)] c09_winsorize_sigma_n2, 8,
-    winsorize_vec::<2>(tevec::map::WinsorizeMethod::Sigma));
-h!(#[cfg(feature = "thorough")] #[kani::stub(std::fmt::format, crate::util::fmt_stub)] c09_winsorize_median_n2, 8,
-    winsorize_vec::<2>(tevec::map::WinsorizeMethod::Median));
+#[cfg(feature = "thorough")]
+#[kani::proof]
+#[kani::unwind(7)]
+pub fn c09_pipe_vshift_vshift_n2() {
+    witness(pipe_vshift2::<2>());
+}
+
+#[cfg(feature = "thorough")]
+#[kani::proof]
+#[kani::unwind(8)]
+pub fn c09_pipe_vshift_vshift_n3() {
+    witness(pipe_vshift2::<3>());
+}
+
+#[cfg(feature = "thorough")]
+#[kani::proof]
+#[kani::unwind(8)]
+pub fn c09_pipe_fill_vclip_n3() {
+    witness(pipe_fill_vclip::<3>());
+}
+
+#[cfg(feature = "thorough")]
+#[kani::proof]
+#[kani::stub(std::fmt::format, crate::util::fmt_stub)]
+#[kani::unwind(8)]
+pub fn c09_winsorize_sigma_n2() {
+    witness(winsorize_vec::<2>(tevec::map::WinsorizeMethod::Sigma));
+}
+
+#[cfg(feature = "thorough")]
+#[kani::proof]
+#[kani::stub(std::fmt::format, crate::util::fmt_stub)]
+#[kani::unwind(8)]
+pub fn c09_winsorize_median_n2() {
+    witness(winsorize_vec::<2>(tevec::map::WinsorizeMethod::Median));
+}
+
